@@ -2560,6 +2560,13 @@ func getVarDependencies(nod *node, sc *scope) (deps []*node) {
 	var walk func(root *node, inFunc bool)
 	walk = func(root *node, inFunc bool) {
 		root.Walk(func(n *node) bool {
+			if n.kind == selectorExpr && n.action == aGetMethod {
+				// Dependencies also pass through the bodies of the referenced methods.
+				if m, ok := n.val.(*node); ok && m.kind == funcDecl && !seen[m] {
+					seen[m] = true
+					walk(m.child[3], true)
+				}
+			}
 			if n.kind != identExpr {
 				return true
 			}
